@@ -430,6 +430,20 @@ def call_py(ex, obj, name, node, st):
         vals = sorted(set(d.values()))
         st.fact(z3.Or(r == args[1].z, *[r == z3.StringVal(v) for v in vals]))
         return VStr(r)
+    import struct as _struct
+
+    if obj is _struct.unpack_from:
+        # struct.unpack_from(fmt, buffer, offset) for the little-endian 32-bit format: needs offset >= 0 and 4 bytes; yields one unsigned 32-bit integer
+        args, _ = ex.eval_args(node, st)
+        fmt = args[0]
+        if not (isinstance(fmt, VStr) and z3.is_string_value(z3.simplify(fmt.z)) and z3.simplify(fmt.z).as_string() == "<I") or len(args) != 3:
+            raise Unsupported("struct.unpack_from outside the supported form ('<I', buffer, offset)")
+        buf, off = args[1], args[2]
+        ex.raise_if(st, z3.Or(off.z < 0, off.z + 4 > z3.Length(buf.z)), "struct.error", "unpack_from")
+        ex.assumed.add("struct.unpack_from('<I', b, off): raises struct.error iff off < 0 or off + 4 > len(b); otherwise one integer in [0, 2**32)")
+        r = fresh("u32", I)
+        st.fact(z3.And(0 <= r, r < 2**32))
+        return VTuple([VInt(r)])
     if obj is builtins.len:
         (a,), _ = ex.eval_args(node, st)
         if isinstance(a, (VBytes, VStr)):
@@ -507,7 +521,10 @@ def bytes_of_list(ex, a: VList, st):
         # list built by a comprehension: the range condition is proved of the arbitrary element in the body's state
         i_, e_, sc_ = arb
         allowed = any(cls in ex.c.raises or cls in ex.c.raises_iff for cls in exc_supers("ValueError"))
-        if not allowed:
+        if any(h in exc_supers("ValueError") for h in getattr(ex, "comp_handlers", [])):
+            # inside try/except ValueError: an element outside range(256) is a raise the handler catches
+            ex.raise_if(st, fresh("bytes_elem_out_of_range", B), "ValueError", "bytes() element not in range(256)")
+        elif not allowed:
             ex.oblige(sc_, "safe", f"ValueError@L{getattr(ex, 'cur_line', 0) - ex.fn.lineno}:bytes() element in range(256) (comprehension element)", z3.And(e_.z >= 0, e_.z <= 255), getattr(ex, "cur_line", 0))
         r = fresh("bytes", S)
         st.fact(z3.Length(r) == a.n)
